@@ -1140,7 +1140,8 @@ class SyncState:  # pylint: disable=too-many-instance-attributes, too-many-publi
                 ent.ignored = IgnoreReason.NONE
 
             if prior_ent and not prior_ent.is_discarded:
-                if not ent or (not ent.is_conflicted and (prior_ent[side].sync_hash or not ent[side].sync_hash)):
+                if not ent or ent.is_discarded or \
+                        (not ent.is_conflicted and (prior_ent[side].sync_hash or not ent[side].sync_hash)):
                     # if we don't have an ent, reuse the prior_ent
                     # otherwise, only consider reusing the prior_ent if it has been synced,
                     #   or if the ent hasn't been synced. if the prior_ent (in a rename this is the "rename from")
